@@ -172,7 +172,21 @@ type ObjInv struct {
 	added  bool
 }
 
+// OnAlloc is a fact assumed about an object of a struct type when it leaves the function that
+// allocated it (boxed into an interface, stored, or passed on): the definition of a ghost attribute
+// of the object in terms of the fields it was built with.
+type OnAlloc struct {
+	Type string
+	Var  string
+	Text string
+	E    Expr
+	Line int
+	Pkg  string
+	SF   *SpecFile
+}
+
 type SpecFile struct {
+	OnAllocs    []*OnAlloc
 	ObjInvs     []*ObjInv
 	Protected   []Protected
 	Immutable   []string // "T.f" fields never written after construction
@@ -607,7 +621,7 @@ func (p *parser) parsePrimary() Expr {
 var clauseKeywords = map[string]bool{
 	"func": true, "interface": true, "requires": true, "ensures": true, "modifies": true,
 	"let": true, "loop": true, "invariant": true, "ghost": true, "axiom": true, "lemma": true,
-	"table": true, "import": true, "flag": true, "assert": true, "external": true, "loopmodifies": true, "when": true, "ghostfield": true, "immutable": true, "protected": true, "objinv": true,
+	"table": true, "import": true, "flag": true, "assert": true, "external": true, "loopmodifies": true, "when": true, "ghostfield": true, "immutable": true, "protected": true, "objinv": true, "onalloc": true,
 }
 
 type rawClause struct {
@@ -851,6 +865,18 @@ func readSpecFile(path string, pkgPath string) (*SpecFile, error) {
 				for _, f := range splitTop(t[:i]) {
 					sf.Protected = append(sf.Protected, Protected{Field: strings.TrimSpace(f), Mu: muf, Exclusive: excl})
 				}
+				cur, curLoop = nil, nil
+			case "onalloc":
+				// onalloc T(c): expr
+				t := rc.text
+				ci := strings.Index(t, ":")
+				pi := strings.IndexByte(t, '(')
+				if ci < 0 || pi < 0 || pi > ci {
+					panic(fmt.Errorf("%s:%d: onalloc T(c): expr", path, rc.line))
+				}
+				oa := &OnAlloc{Type: strings.TrimSpace(t[:pi]), Var: strings.TrimSuffix(strings.TrimSpace(t[pi+1:ci]), ")"), Text: strings.TrimSpace(t[ci+1:]), Line: rc.line, Pkg: pkgPath, SF: sf}
+				oa.E = mustExpr(rc, t[ci+1:])
+				sf.OnAllocs = append(sf.OnAllocs, oa)
 				cur, curLoop = nil, nil
 			case "objinv":
 				// objinv T(h) by Ctor over T.f, U.g: expr
